@@ -4,6 +4,7 @@ import (
 	"go/ast"
 	"go/token"
 	"go/types"
+	"strings"
 
 	"gnoverif/engine"
 )
@@ -699,28 +700,117 @@ func c31(c *engine.Ctx) {
 		}
 	}
 	if f := c.MustFunc(CS + "signAddVote"); f != nil {
+		// signVote is reached only when the vote set of (height, round, type) holds no vote
+		// of this validator: the lookup <voteSet>.GetByAddress/GetByIndex(own) — inline or
+		// in a helper that returns it — yields nil.
+		info := f.Info()
+		recv := hhRecv(f)
+		typeParam := paramObj(f, 0)
+		names := map[types.Object]string{recv: "cs"}
+		lookups := hhDeepCalls(f, VS+"GetByAddress", VS+"GetByIndex")
 		n := 0
-		ex := f.CallsTo(CS + "existingSignedVote")
 		for _, s := range f.CallsTo(CS + "signVote") {
 			n++
-			ok, why := false, "no existingSignedVote test"
-			for _, e := range ex {
-				r := f.Graph().CheckedGuard(e, s)
+			ok, why := false, "no lookup of an existing self vote gates signVote"
+			for _, ld := range lookups {
+				ld := ld
+				r := f.Graph().CheckedGuard(ld.Outer, s)
 				if !r.OK {
 					why = r.Why
 					continue
 				}
 				var facts []hhFact
 				hhSplit(r.Cond, r.OnTrue, &facts)
-				if len(facts) == 1 {
-					if _, notNil, isN := hhNilCmp(facts[0].E); isN && notNil != facts[0].True {
-						ok, why = true, "signed only when no self vote exists for this round/type"
+				if len(facts) != 1 {
+					why = "signVote is reachable although a self vote exists (test is `" + engine.ExprString(r.Cond) + "`)"
+					continue
+				}
+				if _, notNil, isN := hhNilCmp(facts[0].E); !isN || notNil == facts[0].True {
+					why = "signVote is reachable although a self vote exists (test is `" + engine.ExprString(r.Cond) + "`)"
+					continue
+				}
+				// a helper must hand the lookup's result back unchanged
+				if ld.Inner != ld.Outer {
+					h := ld.Inner.Fn
+					rv := hhResultVars(h, ld.Inner)
+					back := len(ld.Chain) == 1
+					for _, rb := range h.Graph().ReturnBlocks() {
+						ret := rb.Return()
+						if ret == nil || len(ret.Results) != 1 {
+							back = false
+							continue
+						}
+						if ast.Unparen(ret.Results[0]) == ast.Expr(ld.Inner.Call) {
+							continue
+						}
+						if len(rv) == 1 && rv[0] != nil && engine.ObjOf(h.Info(), ret.Results[0]) == rv[0] {
+							continue
+						}
+						back = false
+					}
+					if !back {
+						why = "the helper does not return the vote-set lookup unchanged"
 						continue
 					}
 				}
-				why = "signVote is reachable although a self vote exists (test is `" + engine.ExprString(r.Cond) + "`)"
+				// looked up by our own address
+				own := hhNorm(f, hhDeepArg(ld, 0), names, 3)
+				if strings.HasSuffix(ld.Inner.CalleeName(), "GetByIndex") {
+					// index obtained from cs.Validators.GetByAddress(own address)
+					own = ""
+					if id := hhIdent(hhDeepArg(ld, 0)); id != nil {
+						for _, a := range hhAssignsTo(f, info.ObjectOf(id)) {
+							if as, isAs := a.(*ast.AssignStmt); isAs && len(as.Rhs) == 1 {
+								if rx, call, isM := hhMethodCall(info, as.Rhs[0], "GetByAddress"); isM && hhIsChain(info, rx, recv, "Validators") {
+									own = hhNorm(f, hhArg(call, 0), names, 3)
+								}
+							}
+						}
+					}
+				}
+				if own != "cs.privValidator.PubKey().Address()" {
+					why = "the lookup is not by this validator's own address (got `" + own + "`)"
+					continue
+				}
+				ok, why = true, "signed only when no self vote exists for this round/type"
+				// the vote set looked into: per vote type, cs.Votes.Prevotes/Precommits(cs.Round)
+				lf := ld.Inner.Fn
+				toF := hhDeepMap(ld)
+				rcv := ast.Unparen(ld.Inner.Call.Fun).(*ast.SelectorExpr).X
+				setVar := engine.ObjOf(lf.Info(), rcv)
+				found := false
+				for _, si := range lf.Switches() {
+					if si.Tag == nil || engine.ObjOf(info, toF(si.Tag)) != typeParam {
+						continue
+					}
+					found = true
+					for k, m := range map[string]string{"PrevoteType": "Prevotes", "PrecommitType": "Precommits"} {
+						cc := si.Consts[k]
+						okc := false
+						if cc != nil && setVar != nil {
+							ast.Inspect(cc, func(x ast.Node) bool {
+								as, isAs := x.(*ast.AssignStmt)
+								if !isAs || len(as.Lhs) != 1 || len(as.Rhs) != 1 || engine.ObjOf(lf.Info(), as.Lhs[0]) != setVar {
+									return true
+								}
+								if rx, rc, isM := hhMethodCall(info, toF(as.Rhs[0]), m); isM && hhIsChain(info, rx, recv, "Votes") && hhIsChain(info, hhArg(rc, 0), recv, "Round") {
+									okc = true
+								}
+								return true
+							})
+						}
+						pos := s.Pos()
+						if cc != nil {
+							pos = cc.Pos()
+						}
+						c.Check("sign-path", f.Name+" self-vote lookup, case "+k, pos, okc, "for "+k+" the lookup must be in cs.Votes."+m+"(cs.Round)")
+					}
+					c.Check("sign-path", f.Name+" self-vote lookup, unknown type panics", si.Stmt.Pos(), si.HasDefault && lf.ClausePanics(si.Default), "unknown vote type must not fall through")
+				}
+				c.Check("sign-path", f.Name+" self-vote lookup selects the vote set by type", s.Pos(), found, "no switch on the vote type selecting Prevotes/Precommits of cs.Round")
+				break
 			}
-			c.Check("sign-path", f.Name+" signVote gated by existingSignedVote == nil", s.Pos(), ok, why)
+			c.Check("sign-path", f.Name+" signVote gated by the absence of an own vote in the round's vote set", s.Pos(), ok, why)
 		}
 		c.Floor("sign-path signAddVote", n, 1)
 	}
@@ -774,39 +864,6 @@ func c31(c *engine.Ctx) {
 			c.Check("sign-path", f.Name+" vote literal", s.Pos(), ok, why)
 		}
 		c.Floor("sign-path signVote", n, 1)
-	}
-	if f := c.MustFunc(CS + "existingSignedVote"); f != nil {
-		info := f.Info()
-		recv := hhRecv(f)
-		sw := f.Switches()
-		n := 0
-		for _, si := range sw {
-			if engine.ObjOf(info, si.Tag) != paramObj(f, 0) {
-				continue
-			}
-			for k, m := range map[string]string{"PrevoteType": "Prevotes", "PrecommitType": "Precommits"} {
-				cc := si.Consts[k]
-				ok := false
-				if cc != nil {
-					ast.Inspect(cc, func(x ast.Node) bool {
-						if e, isE := x.(ast.Expr); isE {
-							if rx, rc, isM := hhMethodCall(info, e, m); isM && hhIsChain(info, rx, recv, "Votes") && hhIsChain(info, hhArg(rc, 0), recv, "Round") {
-								ok = true
-							}
-						}
-						return true
-					})
-				}
-				n++
-				pos := f.Pos()
-				if cc != nil {
-					pos = cc.Pos()
-				}
-				c.Check("sign-path", f.Name+" case "+k, pos, ok, "case "+k+" must look in cs.Votes."+m+"(cs.Round)")
-			}
-			c.Check("sign-path", f.Name+" default panics", si.Stmt.Pos(), si.HasDefault && f.ClausePanics(si.Default), "unknown vote type must not fall through")
-		}
-		c.Floor("sign-path existingSignedVote", n, 2)
 	}
 }
 
